@@ -251,7 +251,7 @@ OpHasStatus(d, c) ==
 QuickOpStatus == {0, 1, 2, 10, 11, 41, 49, 64, 128, 255}
 OpStatusDom(tier) == IF tier = "thorough" THEN 0..255 ELSE IF tier = "quick" THEN QuickOpStatus ELSE {0, 1}
 OpRegDom(c, tier) == IF tier = "thorough" THEN RegDomain(c) ELSE RegDomain(c) \cap {0, 1, 2, 32, 38, 48, 255}
-OpMaskOk(m, tier) == PopCount(m) <= (IF tier = "thorough" THEN 2 ELSE 1)
+OpMaskOk(m, tier) == tier = "thorough" \/ PopCount(m) <= 1
 UdpBindFaults == {F("HostIO", 0), F("AddrInUse", 0)}
 OpFaults(d, c, tier) ==
   IF d = "udp" THEN (IF c = "bind" THEN UdpBindFaults ELSE IF c = "sendto" THEN UdpSendFaults ELSE UdpRecvFaults)
